@@ -12,6 +12,22 @@ CLAIMED = {
             "DESIGN.md 4/C01"),
 }
 
+MODEL_NOTE = "Reference model written from the property statement; grey zones listed in DESIGN 3.6 accepted either way; Go runtime, testing/synctest, rapid trusted."
+CLAIMED.update({
+    "C02": ("model-based property testing: rapid-generated RPC histories (cancel/timeout/departure/foreign+duplicate answers) vs. a reference dealer model under a virtual clock",
+            "Exploration: the dealer model demands exactly one final reply whenever the statement says one is due and nothing else; judged at quiescence after every step and 24 virtual hours later, so 'never answered' is decided, not guessed. Sampling.",
+            MODEL_NOTE, "DESIGN.md 4/C02"),
+    "C03": ("model-based property testing: rapid-generated registration structures and calls vs. a reference dealer model (best-match resolution, policy choice sets, id freshness, payload equality)",
+            "Exploration: every INVOCATION is checked for callee membership in the policy's allowed set, registration id, fresh request id, unchanged payload and detail flags; unexpected deliveries are violations. Sampling.",
+            MODEL_NOTE, "DESIGN.md 4/C03"),
+    "C13": ("model-based property testing: every order of cancel modes, answers, timer expiry (T-1ns/T/T+1ns on the synctest fake clock) and departures around calls",
+            "Exploration with exact virtual time: 'never before the timeout, exactly at it' is an equality check on the fake clock. Sampling of orders, not exhaustive.",
+            MODEL_NOTE, "DESIGN.md 4/C13"),
+    "C19": ("property-based differential test against an independent URI/id model; exhaustive enumeration of all strings <= 6 over a 9-symbol alphabet x 6 modes plus rapid-generated strings and ids",
+            "Exploration, with one exhaustive (bounded) part: every string up to length 6 over {a Z 0 _ . # space e-acute newline} is compared in all six validation modes in every run; the rest (arbitrary Unicode, ids, wrap window) is sampled.",
+            "Independent component-wise model; Unicode white space outside Go's \\s is a grey zone; wrap window 500 taken from the documented constant.", "DESIGN.md 4/C19"),
+})
+
 NOT_YET = {}
 
 def main():
